@@ -294,6 +294,10 @@ type IntentOpts struct {
 	PathVarRefs bool // REST path variables typed by a bare local type name or App.Type
 	MultiLineAnnos bool // string annotations written in the multi-line form '@k =:' + '| text' lines
 	PlusText bool // a literal '+' in return payloads, call endpoints and action text
+	// SubsOrderFree: at most one subscriber per (publisher, event) in the whole specification, and only to
+	// events the publisher does not give statements of its own - then no statement order depends on the
+	// order in which blocks are walked (needed by the partition relation of C04)
+	SubsOrderFree bool
 }
 
 func GenIntent(t *rapid.T) *Intent { return GenIntentOpt(t, IntentOpts{}) }
@@ -326,10 +330,14 @@ func GenIntentOpt(t *rapid.T, opts IntentOpts) *Intent {
 		}
 	}
 	if opts.Subs {
+		usedAll := map[string]bool{}
 		for i := 1; i < len(in.Apps); i++ {
 			a := in.Apps[i]
 			ns := rapid.IntRange(0, 2).Draw(t, "nsubs")
 			used := map[string]bool{}
+			if opts.SubsOrderFree {
+				used = usedAll
+			}
 			for k := 0; k < ns; k++ {
 				pub := in.Apps[rapid.IntRange(0, i-1).Draw(t, "pubapp")]
 				ev := pick(t, eventPool, "subev")
@@ -338,6 +346,9 @@ func GenIntentOpt(t *rapid.T, opts IntentOpts) *Intent {
 				clash := false
 				for _, ep := range pub.Eps {
 					if ep.Name == ev && ep.Kind != "event" {
+						clash = true
+					}
+					if opts.SubsOrderFree && ep.Name == ev && len(ep.Stmts) > 0 {
 						clash = true
 					}
 				}
